@@ -114,6 +114,7 @@ func (in *Interp) resetPath() {
 	in.storeLog = nil
 	in.replacements = map[string]FuncV{}
 	in.curPanicFr = nil
+	in.noMerge = os.Getenv("VERIF_NOMERGE") != ""
 }
 
 func (in *Interp) ensureInit(pkg *ssa.Package) {
